@@ -378,7 +378,11 @@ def execute(case):
             'sim_time': 0.0, 'nontrivial': any(s[1] for s in sigs)}
 
 
-def _split_child(d, bam, k, seed, wfd):
+class _NoProgress(BaseException):
+    pass
+
+
+def _split_child(d, bam, k, seed, wfd, max_passes=None):
     import json, multiprocessing, os, runpy, sys
     from ..rng import stream
     from ..pool import Scheduler, SimPoolFactory
@@ -393,8 +397,24 @@ def _split_child(d, bam, k, seed, wfd):
     out = os.path.join(d, f'split_{k}') + '/'
     sys.argv = ['bamSplitByTag.py', bam, 'SM', '-o_folder', out, '-max_handles', str(k)]
     res = {'exception': None}
+    if max_passes:
+        # bounded progress: every pass over the input opens it once and must finish at least one tag value, so #values + 2 passes are enough;
+        # a tool that keeps re-scanning is stopped there (simulated step budget, no wall clock)
+        import pysam
+        real_af = pysam.AlignmentFile
+        opened = [0]
+
+        class _Counting(real_af):
+            def __init__(self, *a, **kw):
+                if (len(a) < 2 or 'w' not in str(a[1])) and 'w' not in str(kw.get('mode', '')):
+                    opened[0] += 1
+                    if opened[0] > max_passes:
+                        raise _NoProgress(f'input scanned more than {max_passes} times')
+        pysam.AlignmentFile = _Counting
     try:
         runpy.run_module('singlecellmultiomics.bamProcessing.bamSplitByTag', run_name='__main__')
+    except _NoProgress as e:
+        res['exception'] = f'NoProgress: {e}'
     except SystemExit as e:
         res['exception'] = f'SystemExit({e.code})' if e.code else None
     except BaseException as e:
@@ -537,7 +557,7 @@ def run_split(case, log, probes):
             if pid == 0:
                 os.close(rfd)
                 try:
-                    _split_child(d, bam, k, f"{case.get('run_seed')}/{k}", wfd)
+                    _split_child(d, bam, k, f"{case.get('run_seed')}/{k}", wfd, max_passes=len({x[0] for x in sp['reads']}) + 2)
                 finally:
                     os._exit(98)
             os.close(wfd)
